@@ -5224,6 +5224,30 @@ int32_t matrixSslEncodeClientHello(ssl_t *ssl, sslBuf_t *out,
         }
     }
 
+    /* Remember which suites this ClientHello lists: the ServerHello must
+        select one of them, and a server-initiated renegotiation sends the
+        list again (it is then passed in from ssl itself) */
+    if (cipherSpecs != ssl->tlsClientCipherSuites || cipherSpecLen == 0)
+    {
+        psFree(ssl->tlsClientCipherSuites, ssl->hsPool);
+        ssl->tlsClientCipherSuites = NULL;
+        ssl->tlsClientCipherSuitesLen = 0;
+        if (cipherSpecLen > 0 && cipherSpecs != NULL && cipherSpecs[0] != 0)
+        {
+            ssl->tlsClientCipherSuites = psMalloc(ssl->hsPool,
+                    2 * cipherSpecLen);
+            if (ssl->tlsClientCipherSuites == NULL)
+            {
+                return SSL_MEM_ERROR;
+            }
+            for (i = 0; i < cipherSpecLen; i++)
+            {
+                ssl->tlsClientCipherSuites[i] = cipherSpecs[i];
+            }
+            ssl->tlsClientCipherSuitesLen = cipherSpecLen;
+        }
+    }
+
     addRenegotiationScsv = 0;
 #  ifdef ENABLE_SECURE_REHANDSHAKES
     /* Initial CLIENT_HELLO will use the SCSV mechanism for greatest compat */
@@ -5231,18 +5255,6 @@ int32_t matrixSslEncodeClientHello(ssl_t *ssl, sslBuf_t *out,
     {
         cipherLen += 2; /* signalling cipher id 0x00FF */
         addRenegotiationScsv = 1;
-        if (cipherSpecLen > 0)
-        {
-            /* Store the initial ClientHello cipherlist for re-sending during
-               possible server-initiated renegotiations. */
-            ssl->tlsClientCipherSuites = psMalloc(ssl->hsPool,
-                    2*cipherSpecLen);
-            for (i = 0; i < cipherSpecLen; i++)
-            {
-                ssl->tlsClientCipherSuites[i] = cipherSpecs[i];
-            }
-            ssl->tlsClientCipherSuitesLen = cipherSpecLen;
-        }
     }
 #  endif
     if (options->fallbackScsv)
